@@ -16,6 +16,7 @@ fn s<'a>(op: &'a Value, k: &str) -> &'a str {
 /// (an operand was not accessible in the real heap: the implementation has diverged).
 pub fn exec(w: &mut World, op: &Value) -> bool {
     let name = s(op, "op");
+    let panics = op.get("panic").and_then(|v| v.as_bool()).unwrap_or(false);
     match name {
         "alloc_root" => {
             let (o, k, via) = (s(op, "o").to_string(), Kind::parse(s(op, "k")), Via::parse(s(op, "via")));
@@ -26,14 +27,36 @@ pub fn exec(w: &mut World, op: &Value) -> bool {
                 root.strong.push(p);
                 st.root_s.push(ser);
                 ev!("{{\"ev\":\"store\",\"a\":{},\"p\":0,\"c\":{},\"path\":\"{}\",\"effective\":true}}", st.id, ser, via.name());
-            })
+                if panics {
+                    st.panic_now(via != Via::MutateRoot);
+                }
+            });
+            true
+        }
+        "failed_map_root" => {
+            w.edit_root(Via::TryMapRoot, move |st, mc, root| {
+                st.survey(mc, root, None);
+                st.fail_next = true;
+                st.unwind_point(true);
+            });
+            w.st.fail_next = false;
+            true
+        }
+        "failed_new" => {
+            let n = op.get("n").and_then(|v| v.as_u64()).unwrap_or(0) as usize;
+            crate::world::failed_new(w.st.next_serial + 1000, n, s(op, "mode"));
+            true
         }
         "alloc_temp" => {
             let (o, k) = (s(op, "o").to_string(), Kind::parse(s(op, "k")));
             w.mutate("alloc_temp", move |st, mc, root| {
                 st.survey(mc, root, None);
                 st.alloc(mc, k, &o);
-            })
+                if panics {
+                    st.panic_now(false);
+                }
+            });
+            true
         }
         "alloc_into" => {
             let (o, k, p, path) = (s(op, "o").to_string(), Kind::parse(s(op, "k")), s(op, "p").to_string(), s(op, "path").to_string());
@@ -65,7 +88,13 @@ pub fn exec(w: &mut World, op: &Value) -> bool {
                     _ => {
                         let Some(cp) = found.get(&cs).copied() else { *okr = false; st.diverged = true; return };
                         match name.as_str() {
-                            "link" => st.store(mc, ps, pp, cs, cp, &path),
+                            "link" => {
+                                let r = st.store(mc, ps, pp, cs, cp, &path);
+                                if panics {
+                                    st.panic_now(false);
+                                }
+                                r
+                            }
                             "wlink" => st.wstore(mc, ps, pp, cs, cp, &path),
                             _ => st.barrier_only(mc, ps, pp, cs, cp, &path),
                         }
@@ -284,6 +313,7 @@ pub struct ReplayResult {
 /// "drop": drop the arena right where the behaviour ended).
 pub fn replay(beh: &Value, beh_id: usize, epilogue: &str) -> ReplayResult {
     ALLOC.reset();
+    crate::world::AUX_SERIAL.store(100_000, std::sync::atomic::Ordering::Relaxed);
     ev!("{{\"ev\":\"reset\",\"beh\":{},\"epilogue\":\"{}\"}}", beh_id, epilogue);
     let mut w = World::new(0, 1);
     let mut skipped = 0;
